@@ -37,7 +37,9 @@ SWITCHY = {"Switch", "OrElse", "Mix"}
 def cfg_fn(rng, ctx):
     depth = int(rng.choice([1, 2, 2])) if ctx.quick() else int(rng.choice([1, 2, 2, 3]))
     kinds = None if rng.random() < 0.3 else [k for k in gen.ALL_KINDS if k not in SWITCHY]
-    return gen.Cfg(depth=depth, kinds=kinds, literal_ret=0.5, root="Static" if rng.random() < 0.4 else None)
+    r = rng.random()
+    root = "Static" if r < 0.3 else ("Dimap" if r < 0.55 else None)
+    return gen.Cfg(depth=depth, kinds=kinds, literal_ret=0.5, root=root, weights={"Dimap": 2.0})
 
 
 def h_retag(ctx, plan, case, rec, rng, nk, hist, route, guarded):
